@@ -261,16 +261,6 @@ theorem import_history_independent (C : ChainComp St Tx) (cfg : Cfg) (g : Header
   cases res₂
   exact ⟨a₁.symm.trans a₂, b₁.symm.trans b₂⟩
 
-/-- restarts are invisible: closing and reopening the chain between any two imports changes nothing the import path reads.
-    `_partial`: the model has no runtime caches — Go's LRU block/body/futureBlocks caches, `pastTries`, `codeSizeCache` and
-    the trie node cache generations are exactly what a restart drops; that they do not influence results is what the
-    metamorphic differential of the harness exercises on the real node (cold vs warm, archive vs pruning), not a theorem. -/
-theorem import_cache_independent_partial (C : ChainComp St Tx) (cfg : Cfg) (S : Store St Tx) (evs₁ evs₂ : List (Event Tx)) :
-    S.run C cfg (evs₁ ++ .restart :: evs₂) = S.run C cfg (evs₁ ++ evs₂) := by
-  unfold Store.run
-  rw [List.foldl_append, List.foldl_append]
-  rfl
-
 -- non-vacuity: in the toy history the block B2 is stored with its receipts (two receipts, cumulative gas 1 and 2), and
 -- the same block arriving alone after its parent, or in one batch, or after a pruning of B1's state and a restart, is
 -- stored with the same result.
@@ -279,5 +269,180 @@ example :
     let S₂ := (genesisStore Toy.comp Toy.g 0).run (Toy.chain true) Toy.cfg
       [.insert [Toy.b1] Toy.noCoin, .restart, .insert [Toy.a1] Toy.noCoin, .insert [Toy.b2] Toy.noCoin]
     (S₂.blocks 2002).bind (·.receipts) = ((Toy.forked true).blocks 2002).bind (·.receipts) := by decide
+
+
+/-! ## 6. Warm or cold caches: the runtime caches cannot influence an import -/
+
+/-- Reading through coherent caches IS reading the store: `GetBlock`, `GetTd`, `HasBlock`, `HasState`, `state.New` answer
+    the same whether they are served from `blockCache` / `bodyCache` / header, number and td caches / `pastTries` or from the
+    database. -/
+theorem reads_through_coherent_caches (codeDb : Hash → Option Nat) (K : Caches St Tx) (S : Store St Tx) (h : Coh codeDb K S) :
+    view K S = S :=
+  view_eq codeDb K S h
+
+/-- **Coherence is an invariant of the running node.**  Start from any store satisfying the store invariant whose bodies match
+    their headers, with ANY coherent cache contents; let the node run any history of imports (every read through the caches),
+    prunings, restarts (caches dropped), SetHead rewinds (block-keyed caches purged, as the code does), arbitrary LRU evictions
+    and arbitrary cache fills.  Then every cached entry still equals what the store holds for its key.
+    Needs: the current order of checks in ValidateBody (`bodyFirst`; otherwise `block_cache_needs_body_check_witness`), and
+    collision-freedom of header hash, transaction root, uncle hash and state root — the block and state caches are keyed by
+    hash and are NOT updated by writes, so a write under an existing key must write the same value. -/
+theorem cache_coherence_preserved (C : ChainComp St Tx) (cfg : Cfg) (g : Header) (codeDb : Hash → Option Nat)
+    (hbf : C.bodyFirst = true) (cf : CollisionFree C) (N : NodeK St Tx) (hN : NInv C cfg g codeDb N) (evs : List (EventK St Tx)) :
+    Coh codeDb (N.run C cfg evs).caches (N.run C cfg evs).store :=
+  (nodeK_run C cfg g codeDb hbf cf evs N hN).2.coh
+
+/-- **The import result is the same for every cache state** (warm vs cold, any LRU contents, any eviction schedule): two nodes
+    holding the same store with different coherent caches, driven through histories that differ only in cache traffic
+    (fills / evictions), end with the same store — database content, states, head, write log — which is the store of the
+    node without caches.  With `import_is_function` this closes the clause "with warm or cold caches" for the model; what
+    remains outside is only whether Go's LRU and trie-node implementations realise "a cache entry is what was put in". -/
+theorem import_cache_independent (C : ChainComp St Tx) (cfg : Cfg) (g : Header) (codeDb : Hash → Option Nat)
+    (hbf : C.bodyFirst = true) (cf : CollisionFree C) (S : Store St Tx) (hI : Inv C cfg g S) (hB : BodiesOk C S)
+    (K₁ K₂ : Caches St Tx) (h₁ : Coh codeDb K₁ S) (h₂ : Coh codeDb K₂ S)
+    (evs₁ evs₂ : List (EventK St Tx)) (he : stripK evs₁ = stripK evs₂) :
+    (NodeK.run C cfg ⟨S, K₁⟩ evs₁).store = (NodeK.run C cfg ⟨S, K₂⟩ evs₂).store ∧
+    (NodeK.run C cfg ⟨S, K₁⟩ evs₁).store = S.run C cfg (stripK evs₁) := by
+  have r₁ := (nodeK_run C cfg g codeDb hbf cf evs₁ ⟨S, K₁⟩ ⟨hI, hB, h₁⟩).1
+  have r₂ := (nodeK_run C cfg g codeDb hbf cf evs₂ ⟨S, K₂⟩ ⟨hI, hB, h₂⟩).1
+  exact ⟨by rw [r₁, r₂, he], r₁⟩
+
+/-- the freshly initialised node satisfies the hypotheses of `import_cache_independent` (with empty caches, or any coherent ones). -/
+theorem genesis_node_invariant (C : ChainComp St Tx) (cfg : Cfg) (g : Header) (gst : St) (codeDb : Hash → Option Nat)
+    (hg : C.root gst = g.root) (hgb : validateBodyHashes C.toComp { header := g, txs := [], uncles := [] } = .ok ()) :
+    NInv C cfg g codeDb ⟨genesisStore C.toComp g gst, Caches.empty⟩ := by
+  refine ⟨genesis_inv C cfg g gst hg, ?_, coh_empty codeDb _⟩
+  intro h s hs
+  unfold genesisStore upd at hs
+  simp only [] at hs
+  split at hs
+  · cases hs; exact hgb
+  · cases hs
+
+/-- The code-size cache as the tree keys it (by CODE HASH) is transparent: on any coherent cache the lookup returns what the
+    content-addressed code table holds — for every account of every state, hence on every fork — and leaves the cache coherent. -/
+theorem codesize_cache_by_codehash_transparent (cache : Nat → Option Nat) (db : Hash → Option Nat)
+    (hc : ∀ c n, cache c = some n → db c = some n) (a : Addr) (codeHash : Hash) :
+    (codeSizeLookup keyByCodeHash cache db a codeHash).1 = db codeHash ∧
+    ∀ c n, (codeSizeLookup keyByCodeHash cache db a codeHash).2 c = some n → db c = some n :=
+  codeSize_byHash cache db hc a codeHash
+
+/-- Witness of a NON-coherent cache key (the seeded change C01-2): keyed by ADDRESS, the size learnt for address 7 on a fork
+    where it carries the 4-byte code `1` is served on the fork where the same address carries the 25-byte code `2` — the entry
+    is not a function of its key, so EXTCODESIZE (and with it the state root) depends on which fork was imported first.
+    Keyed by code hash the second lookup answers 25. -/
+theorem codesize_cache_keyed_by_address_witness :
+    let db : Hash → Option Nat := fun ch => if ch = 1 then some 4 else if ch = 2 then some 25 else none
+    let warmByAddr := (codeSizeLookup keyByAddress (fun _ => none) db 7 1).2
+    let warmByHash := (codeSizeLookup keyByCodeHash (fun _ => none) db 7 1).2
+    (codeSizeLookup keyByAddress warmByAddr db 7 2).1 = some 4 ∧ db 2 = some 25 ∧
+    (codeSizeLookup keyByAddress (fun _ => none) db 7 2).1 = some 25 ∧
+    (codeSizeLookup keyByCodeHash warmByHash db 7 2).1 = some 25 := by
+  decide
+
+/-- Witness that the block cache is coherent only BECAUSE bodies are checked against headers: with the pre-9f7e060 order of
+    checks the re-import of the known block B2 with swapped transactions rewrites the database entry of hash 2002 while a
+    `blockCache` holding the original B2 is left as it is — the cache (transactions [1,2]) no longer equals the store ([2,1]). -/
+theorem block_cache_needs_body_check_witness :
+    let S' := (importBlock (Toy.chain false) Toy.cfg false (Toy.forked false) Toy.b2swapped).2
+    ((Toy.forked false).blocks 2002).map (·.block.txs) = some [1, 2] ∧ (S'.blocks 2002).map (·.block.txs) = some [2, 1] := by
+  decide
+
+-- non-vacuity: the toy genesis node satisfies the invariant; a history with fills, evictions, a restart and a SetHead, run
+-- with caches, ends with the head and the stored receipts of the cache-free run.
+example : validateBodyHashes Toy.comp { header := Toy.g, txs := ([] : List Nat), uncles := [] } = .ok () := by rfl
+example :
+    let evs : List (EventK Nat Nat) :=
+      [.chain (.insert [Toy.a1] Toy.noCoin), .fill (fun _ => true) (fun _ => true) (fun _ => true),
+       .chain (.insert [Toy.b1, Toy.b2] Toy.noCoin), .evict (fun h => h == 1001) (fun _ => false) (fun _ => true) (fun _ => true),
+       .chain .restart, .chain (.insert [Toy.b2] Toy.noCoin), .chain (.setHead (fun h => h != 2002) 1001)]
+    let N := NodeK.run (Toy.chain true) Toy.cfg ⟨genesisStore Toy.comp Toy.g 0, Caches.empty⟩ evs
+    (N.store.head, (N.store.blocks 1002).bind (·.receipts), (N.store.blocks 2002).isSome) = (1001, some [], false) := by decide
+
+/-! ## 7. Equal content ⇒ equal ROOT, on real Merkle-Patricia tries (composition with C10) -/
+
+/-- **`Finalise` / `IntermediateRoot` on real tries**: run the two map loops on actual Merkle-Patricia tries (every storage
+    trie and the account trie is the history of its `TryUpdate` / `TryDelete` calls in iteration order, roots by
+    `Trie.hashRoot` for an ARBITRARY hash function `H`).  For all permutations of `stateObjectsDirty` and of every
+    `dirtyStorage` the STATE ROOT is the same, every account's storage root is the same, and the content view is the same.
+    No "root is a function of content" hypothesis: that is `Aqv.Props.C10.root_content_only`, used inside.  The only
+    hypothesis is `Codec.Ok`: trie keys are injective and encoded values non-empty. -/
+theorem finalise_root_perm_invariant (H : Bytes → Bytes) (cd : Codec) (ok : cd.Ok) (del : Bool) (s : CSDB) (hc : CCoh cd s)
+    (π₁ π₂ : List Addr) (σ₁ σ₂ : Addr → List Slot) (hπ : π₁.Perm π₂) (hσ : ∀ a, (σ₁ a).Perm (σ₂ a)) :
+    cIntermediateRoot H cd del π₁ σ₁ s = cIntermediateRoot H cd del π₂ σ₂ s ∧
+    (cFinalise H cd del π₁ σ₁ s).base = (cFinalise H cd del π₂ σ₂ s).base ∧
+    ∀ a o, (cFinalise H cd del π₁ σ₁ s).base.objs a = some o →
+      trieRoot H ((cFinalise H cd del π₁ σ₁ s).hists a) = trieRoot H ((cFinalise H cd del π₂ σ₂ s).hists a) := by
+  obtain ⟨b₁, c₁⟩ := cFinalise_refines H cd ok del π₁ σ₁ s hc
+  obtain ⟨b₂, c₂⟩ := cFinalise_refines H cd ok del π₂ σ₂ s hc
+  have eb : (cFinalise H cd del π₁ σ₁ s).base = (cFinalise H cd del π₂ σ₂ s).base := by
+    rw [b₁, b₂]; exact finalise_perm_invariant _ del s.base π₁ π₂ σ₁ σ₂ hπ hσ
+  refine ⟨?_, eb, ?_⟩
+  · unfold cIntermediateRoot
+    apply trieRoot_eq_of_content
+    rw [c₁.ac, c₂.ac, eb]
+  · intro a o ho
+    apply trieRoot_eq_of_content
+    rw [c₁.st a o ho, c₂.st a o (eb ▸ ho)]
+
+/-- the root the node computes is THE root of the content: `IntermediateRoot` on real tries equals the root of (any history
+    producing) the account-trie content that Layer A's `finalise` yields — the function `A` the Layer-A theorems take as a
+    parameter exists, and it is what the code computes. -/
+theorem intermediateRoot_is_content_root (H : Bytes → Bytes) (cd : Codec) (ok : cd.Ok) (del : Bool) (s : CSDB) (hc : CCoh cd s)
+    (π : List Addr) (σ : Addr → List Slot) :
+    natOfRoot (cIntermediateRoot H cd del π σ s) =
+      (intermediateRoot (accountRootOf H cd) (storageRootOf H cd) del π σ s.base).2 := by
+  obtain ⟨b, c⟩ := cFinalise_refines H cd ok del π σ s hc
+  unfold cIntermediateRoot intermediateRoot accountRootOf
+  simp only []
+  rw [trieRoot_content, c.ac, b]
+
+/-- … also when the tries are only PARTIALLY loaded (trie cache generations: any clean subtree may have been unloaded, nodes
+    are resolved on demand through the node database): two nodes that reached their account tries through the operation
+    histories of two different iteration orders — with whatever interleaving of Hash / Commit / unloading / reopening — have
+    the same root.  From C10 `root_content_only_partial`; its hypotheses (32-byte hash, collision-freedom of `H` on the nodes
+    the histories pass through, sizes below 2^64) are C10's. -/
+theorem finalise_root_perm_invariant_partially_loaded (H : Bytes → Bytes) (hH : ∀ x, (H x).length = 32) (cd : Codec) (ok : cd.Ok)
+    (del : Bool) (s : CSDB) (hc : CCoh cd s) (π₁ π₂ : List Addr) (σ₁ σ₂ : Addr → List Slot) (hπ : π₁.Perm π₂)
+    (hσ : ∀ a, (σ₁ a).Perm (σ₂ a)) (x₁ x₂ : Aqv.Trie.XState)
+    (r₁ : Aqv.Trie.Reach H (cFinalise H cd del π₁ σ₁ s).acct x₁) (r₂ : Aqv.Trie.Reach H (cFinalise H cd del π₂ σ₂ s).acct x₂)
+    (f₁ : Aqv.Trie.CFHist H (cFinalise H cd del π₁ σ₁ s).acct) (f₂ : Aqv.Trie.CFHist H (cFinalise H cd del π₂ σ₂ s).acct)
+    (z₁ : Aqv.Trie.SzHist H (cFinalise H cd del π₁ σ₁ s).acct) (z₂ : Aqv.Trie.SzHist H (cFinalise H cd del π₂ σ₂ s).acct) :
+    Aqv.Trie.hashRootX H x₁.root = Aqv.Trie.hashRootX H x₂.root := by
+  obtain ⟨b₁, c₁⟩ := cFinalise_refines H cd ok del π₁ σ₁ s hc
+  obtain ⟨b₂, c₂⟩ := cFinalise_refines H cd ok del π₂ σ₂ s hc
+  have eb : (cFinalise H cd del π₁ σ₁ s).base = (cFinalise H cd del π₂ σ₂ s).base := by
+    rw [b₁, b₂]; exact finalise_perm_invariant _ del s.base π₁ π₂ σ₁ σ₂ hπ hσ
+  apply Aqv.Props.C10.root_content_only_partial H hH _ _ x₁ x₂ r₁ r₂ f₁ f₂ z₁ z₂
+  intro kb
+  rw [c₁.ac, c₂.ac, eb]
+
+-- non-vacuity: the toy codec satisfies `Codec.Ok`, the toy real-trie StateDB is coherent, and the two orders issue
+-- different operation histories (so the equality of roots is not an equality of inputs).
+example : Toy.codec.Ok := Toy.codec_ok
+example : CCoh Toy.codec Toy.csdb := by
+  refine ⟨?_, ?_⟩
+  · intro a o ho
+    have : o.storage = fun _ => 0 := by
+      simp only [Toy.csdb, upd] at ho
+      split at ho
+      · cases ho; rfl
+      · split at ho
+        · cases ho; rfl
+        · cases ho
+    funext kb
+    rw [this]
+    simp only [imgS]
+    cases Toy.codec.slotInv kb <;> rfl
+  · funext kb
+    simp only [imgA, Toy.csdb]
+    cases Toy.codec.addrInv kb <;> rfl
+example :
+    let keys (ops : List Aqv.Trie.Op) : List Bytes := ops.map (fun op => match op with | .update k _ => k | .delete k => k | .other => [])
+    keys ((cFinalise (fun x => x) Toy.codec true [1, 2] (fun _ => [5, 6]) Toy.csdb).hists 1) = [Toy.unary 5, Toy.unary 6] ∧
+    keys ((cFinalise (fun x => x) Toy.codec true [2, 1] (fun _ => [6, 5]) Toy.csdb).hists 1) = [Toy.unary 6, Toy.unary 5] ∧
+    keys (cFinalise (fun x => x) Toy.codec true [1, 2] (fun _ => [5, 6]) Toy.csdb).acct = [Toy.unary 1, Toy.unary 2] ∧
+    keys (cFinalise (fun x => x) Toy.codec true [2, 1] (fun _ => [6, 5]) Toy.csdb).acct = [Toy.unary 2, Toy.unary 1] := by
+  decide
 
 end Aqv.Props.C01
